@@ -32,7 +32,19 @@ def _set_session(s):
 
 
 class Unsupported(BaseException):
-    """An operation the engine has no model for.  The path is reported inconclusive, never as success."""
+    """An operation the engine has no model for.  The path is reported inconclusive, never as success.
+    graphiq contains bare `except:` clauses that would swallow this exception, so constructing it also marks the
+    active session as dead; the explorer checks the mark at the end of the path."""
+
+    def __init__(self, *a):
+        super().__init__(*a)
+        if _SESSION is not None and getattr(_SESSION, "dead", None) is None:
+            _SESSION.dead = "Unsupported: " + " ".join(str(x) for x in a)
+
+
+class CannotLift(TypeError):
+    """a value of a foreign type met a symbolic operand (ordinary TypeError semantics: operators return
+    NotImplemented, everything else surfaces as an exception of the code under test)"""
 
 
 # ----------------------------------------------------------------------------------------------------
@@ -582,6 +594,12 @@ class SymInt:
     def conjugate(self):
         return self
 
+    def astype(self, dtype, *a, **k):  # numpy scalars have astype; int/float casts keep the symbolic integer
+        return self
+
+    def item(self):
+        return self
+
     def __repr__(self):
         if self.bit is not None:
             return f"SymBit({self.bit})"
@@ -700,7 +718,7 @@ def _zi(x):
         return z3.If(x.e, z3.IntVal(1), z3.IntVal(0))
     p = _to_pyint(x)
     if p is None:
-        raise Unsupported(f"cannot use {type(x)} as symbolic integer")
+        raise CannotLift(f"cannot use {type(x)} as symbolic integer")
     return z3.IntVal(p)
 
 
@@ -726,7 +744,7 @@ def _zr(x):
     if isinstance(x, (complex, np.complexfloating)):
         if x.imag == 0:
             return _zr(x.real)
-    raise Unsupported(f"cannot use {type(x)} as symbolic real")
+    raise CannotLift(f"cannot use {type(x)} as symbolic real")
 
 
 def _real_fallback(a, b, op):
@@ -770,7 +788,7 @@ class SymReal(float):
             return NotImplemented
         try:
             return _zr(o)
-        except Unsupported:
+        except CannotLift:
             return NotImplemented
 
     def __add__(self, o):
@@ -919,7 +937,7 @@ class SymComplex:
             return NotImplemented
         try:
             return SymComplex.lift(o)
-        except Unsupported:
+        except CannotLift:
             return NotImplemented
 
     @staticmethod
